@@ -76,7 +76,10 @@ static int s_run(int dec, const uint8_t *n_, size_t nn, const uint8_t *a_, size_
 		if (r == 1) { memcpy(*out + tot, o, ol); tot += ol; }
 		free(in); free(o); pos += sz;
 	}
-	if (r == 1) { size_t ol = 0; uint8_t *o = malloc(96); r = s_finish(x, dec, o, &ol); if (r == 1) { memcpy(*out + tot, o, ol); tot += ol; } free(o); }
+	if (r == 1) { size_t ol = 0; uint8_t *o = malloc(96); r = s_finish(x, dec, o, &ol); if (r == 1) { memcpy(*out + tot, o, ol); tot += ol; }
+		/* a rejected finish must stay rejected: call finish again on the same context */
+		else if (dec) { ol = 0; if (s_finish(x, dec, o, &ol) == 1) r = 2; }
+		free(o); }
 	*outn = tot; free(x); free(n); free(a);
 	return r;
 }
@@ -103,6 +106,7 @@ static char verdict_one(const uint8_t *n, size_t nn, const uint8_t *a, size_t an
 }
 static char verdict_str(const uint8_t *n, size_t nn, const uint8_t *a, size_t an, const uint8_t *s, size_t sn, size_t off, int want_pt) {
 	uint8_t *o; size_t on; int r = s_run(1, n, nn, a, an, s, sn, off, &o, &on); char v = '0';
+	if (r == 2) v = '2';      /* finish failed, a second finish on the same context succeeded */
 	if (r == 1) v = want_pt ? ((on == pt.n && memcmp(o, pt.p, pt.n) == 0) ? 'K' : 'P') : '1';
 	free(o); return v;
 }
